@@ -111,6 +111,16 @@ pub fn decode_strings(ctx: &Ctx, rng: &mut impl RngCore, nvalid: usize, nrand: u
             out.push((to_le(&(&s + q), 32), "nonsquare-candidate-on-curve"));
         }
     }
+    // special field values as encodings (roots of unity incl. sqrt(-1), zeta-related constants, limb
+    // patterns, small integers...): the non-negative representative of every field-zoo member
+    for (v, _) in crate::zoo::field_zoo(&c.f) {
+        let e = c.f.abs(&v);
+        out.push((to_le(&e, 32), "field-zoo value"));
+    }
+    for v in [c.zeta.clone(), c.f.inv(&c.zeta).unwrap(), c.d.clone(), c.f.neg(&c.d), c.f.sub(&c.a, &c.d), c.f.inv(&b(2)).unwrap(), c.f.sqrt(&c.f.neg(&b(1))).unwrap()] {
+        out.push((to_le(&c.f.abs(&v), 32), "field-zoo value"));
+        out.push((to_le(&c.f.neg(&c.f.abs(&v)), 32), "field-zoo value"));
+    }
     for _ in 0..nrand {
         out.push((rand_bytes(rng, 32), "random"));
         let mut v = rand_bytes(rng, 32);
@@ -173,6 +183,18 @@ fn c01_forward(ctx: &Ctx, rec: &mut Rec, e: &SE) {
                     other => rec.violation(format!("{P}:forward:stream-decoders"), format!("stream decoding of encode(E) through readers with partial progress (chained at {cut}, {step} bytes per read, vector of three) does not give back E: {other:?}"), json!({"element": el_json(&e.l), "bytes": hx(&bytes)})),
                 }
             }
+            // bijection: E and -E have different encodings and decode to unequal elements (unless E = -E)
+            {
+                let is_id = e.m.x == b(0);
+                match guarded(move || { let nb = enc(&-l); dec(&nb).map(|n| (nb, dec(&bytes).map(|d| (d == n, n == d)))) }) {
+                    Ok(Ok((nb, Ok((e1, e2))))) => {
+                        if (nb == bytes) != is_id || e1 != is_id || e2 != is_id {
+                            rec.violation(format!("{P}:forward:bijection"), format!("E and -E: encodings equal = {}, decoded values == : ({e1},{e2}), but E {} the identity", nb == bytes, if is_id { "is" } else { "is not" }), json!({"element": el_json(&e.l), "bytes": hx(&bytes), "neg_bytes": hx(&nb)}));
+                        }
+                    }
+                    _ => {}
+                }
+            }
             match d {
                 Err(_) => rec.violation(format!("{P}:forward:encoding-rejected"), format!("decode(encode(E)) failed for a valid element ({})", e.class), json!({"element": el_json(&e.l), "bytes": hx(&bytes), "model": pt_json(&e.m)})),
                 Ok((eq1, eq2, d)) => {
@@ -230,7 +252,7 @@ pub fn run_c01(ctx: &Ctx, rec: &mut Rec) {
     for cl in ["identity", "identity'", "G", "other-rep", "rescaled", "elligator", "random-decode", "kG", "program-register"] {
         rec.declare_class(&format!("fwd:{cl}"));
     }
-    for cl in ["valid", "alias s+kq", "q-s", "bit-flip", "boundary", "random", "produced-encoding", "engineered-sqrt-exponent", "q-delta", "nonsquare-candidate-on-curve"] {
+    for cl in ["valid", "alias s+kq", "q-s", "bit-flip", "boundary", "random", "produced-encoding", "engineered-sqrt-exponent", "q-delta", "nonsquare-candidate-on-curve", "field-zoo value"] {
         rec.declare_class(&format!("bwd:{cl}"));
     }
     // forward on the zoo (all presentations) and on program registers
@@ -364,7 +386,7 @@ pub fn run_c02(ctx: &Ctx, rec: &mut Rec) {
     for e in &eps {
         rec.declare_form(e.name);
     }
-    for cl in ["valid", "alias s+kq", "q-s", "bit-flip", "top-bits", "boundary", "q+delta", "q-delta", "engineered-sqrt-exponent", "nonsquare-candidate-on-curve", "random", "random-masked-even", "length"] {
+    for cl in ["valid", "alias s+kq", "q-s", "bit-flip", "top-bits", "boundary", "q+delta", "q-delta", "engineered-sqrt-exponent", "nonsquare-candidate-on-curve", "field-zoo value", "random", "random-masked-even", "length", "textual"] {
         rec.declare_class(cl);
     }
     let mut srng = rng_for(ctx.seed, P, 999, 0);
@@ -401,6 +423,22 @@ pub fn run_c02(ctx: &Ctx, rec: &mut Rec) {
             strings.push((v, "length"));
             let w: Vec<u8> = to_le(&b(8), 32).iter().cycle().take(len).copied().collect();
             strings.push((w, "length"));
+        }
+    }
+    // textual renderings of valid encodings handed over as byte slices: ASCII hex (lower / upper case,
+    // with 0x prefix), decimal digits, base64-like; all are wrong-length slices (or 32 bytes of text)
+    {
+        let samples: Vec<Vec<u8>> = vec![to_le(&b(8), 32), vec![0u8; 32], c.encode_spec(&c.mul(&b(7), &ctx.g)).unwrap().to_vec()];
+        for smp in samples {
+            let hexs_l = hex::encode(&smp);
+            strings.push((hexs_l.clone().into_bytes(), "textual"));
+            strings.push((hexs_l.to_uppercase().into_bytes(), "textual"));
+            strings.push((format!("0x{hexs_l}").into_bytes(), "textual"));
+            strings.push((hexs_l[..32].as_bytes().to_vec(), "textual"));
+            strings.push((crate::model::from_le(&smp).to_string().into_bytes(), "textual"));
+            let mut padded = crate::model::from_le(&smp).to_string().into_bytes();
+            padded.resize(32, b'0');
+            strings.push((padded, "textual"));
         }
     }
     rec.count("strings", strings.len() as u64);
